@@ -174,13 +174,14 @@ Proof. intros Hk Hw. exists k. split; [exact Hk|constructor; exact Hw]. Qed.
 Lemma simge_val m k b i : (m <= k)%nat -> simge m (QV i) (JVal (rv k b i)).
 Proof. intros Hk. exists k. split; [exact Hk|constructor]. Qed.
 
-Section Step.
-Context (c : comp) (m : nat) (contJ : list jn -> result (list vres)) (contV : list qn -> result (list vres)).
-Context (Hcont : forall qs js, Forall2 (simge m) qs js -> contJ js = contV qs).
+Section StepG.
+Context {R : Type} (wrap : list R -> R) (Rel : qn -> jn -> Prop).
+Context (c : comp) (contJ : list jn -> result (list R)) (contV : list qn -> result (list R)).
+Context (Hcont : forall qs js, Forall2 Rel qs js -> contJ js = contV qs).
 
 (* selecting among a list of sub-nodes and continuing *)
-Lemma step_list {W} (f : W -> qn) (g : W -> jn) (ws : list W) :
-  (forall w, jlab (g w) = lab (f w)) -> (forall w, In w ws -> simge m (f w) (g w)) ->
+Lemma step_list_g {W} (f : W -> qn) (g : W -> jn) (ws : list W) :
+  (forall w, jlab (g w) = lab (f w)) -> (forall w, In w ws -> Rel (f w) (g w)) ->
   (let* sel := select jlab c (map g ws) in contJ (map snd sel)) =
   (let* sel := select lab c (map f ws) in contV (map snd sel)).
 Proof.
@@ -200,17 +201,17 @@ Lemma rep_match {X} (reps : list (list jn)) (K : list jn -> result (list X)) hd 
 Proof. intros -> H. destruct hd; [congruence|reflexivity]. Qed.
 
 (* a child step on a replication node *)
-Lemma step_rep k nmem nrep (ws : list wnode) :
-  (m <= k)%nat -> length ws = (nmem * nrep)%nat -> (forall w, In w ws -> wf_node vals w) ->
+Lemma step_rep_g k nmem nrep (ws : list wnode) :
+  length ws = (nmem * nrep)%nat -> (forall w, In w ws -> Rel (qn_of w) (rn k w)) ->
   match chunks nmem nrep (map (rn k) ws) with
   | [] | [] :: _ => Ok []
   | rep0 :: _ =>
       let* sel := select jlab c rep0 in
       match sel with
       | [] => Ok []
-      | _ => let* env := collect (fun rep => let* r := contJ (pick (map fst sel) rep) in Ok (envelope VList r))
+      | _ => let* env := collect (fun rep => let* r := contJ (pick (map fst sel) rep) in Ok (envelope wrap r))
                                  (chunks nmem nrep (map (rn k) ws)) in
-             Ok (envelope VList env)
+             Ok (envelope wrap env)
       end
   end =
   match map qn_of ws with
@@ -218,13 +219,13 @@ Lemma step_rep k nmem nrep (ws : list wnode) :
   | _ => let* sel := select lab c (firstn nmem (map qn_of ws)) in
          match sel with
          | [] => Ok []
-         | _ => let* env := collect (fun rep => let* r := contV (pick (map fst sel) rep) in Ok (envelope VList r))
+         | _ => let* env := collect (fun rep => let* r := contV (pick (map fst sel) rep) in Ok (envelope wrap r))
                                     (chunk (S (length (map qn_of ws))) nmem (map qn_of ws)) in
-                Ok (envelope VList env)
+                Ok (envelope wrap env)
          end
   end.
 Proof.
-  intros Hk Hlen Hwf. destruct ws as [|w0 ws'] eqn:Ews.
+  intros Hlen Hwf. destruct ws as [|w0 ws'] eqn:Ews.
   - cbn [map]. destruct nrep as [|r]; cbn [chunks]; [reflexivity|]. rewrite firstn_nil. reflexivity.
   - rewrite <- Ews in *. assert (Hne : ws <> []) by (rewrite Ews; discriminate).
     assert (Hn : (0 < nmem)%nat) by (destruct nmem; [rewrite Ews in Hlen; cbn in Hlen; lia|lia]).
@@ -247,9 +248,22 @@ Proof.
     rewrite (chunk_chunks nmem nrep (S (length ws)) ws Hn Hlen) by (rewrite Hlen; nia).
     erewrite collect_ext; [reflexivity|]. intros rep Hrep. cbv beta.
     rewrite !pick_map. rewrite (Hcont (map qn_of (pick (map fst sel') rep)) (map (rn k) (pick (map fst sel') rep))); [reflexivity|].
-    apply Forall2_map_same. intros w Hw. apply simge_node; [exact Hk|]. apply Hwf.
+    apply Forall2_map_same. intros w Hw. apply Hwf.
     eapply chunks_incl; [exact Hrep|]. eapply pick_incl; exact Hw.
 Qed.
+
+End StepG.
+
+Section Step.
+Context (c : comp) (m : nat) (contJ : list jn -> result (list vres)) (contV : list qn -> result (list vres)).
+Context (Hcont : forall qs js, Forall2 (simge m) qs js -> contJ js = contV qs).
+
+(* selecting among a list of sub-nodes and continuing *)
+Lemma step_list {W} (f : W -> qn) (g : W -> jn) (ws : list W) :
+  (forall w, jlab (g w) = lab (f w)) -> (forall w, In w ws -> simge m (f w) (g w)) ->
+  (let* sel := select jlab c (map g ws) in contJ (map snd sel)) =
+  (let* sel := select lab c (map f ws) in contV (map snd sel)).
+Proof. apply (step_list_g (simge m) c contJ contV Hcont). Qed.
 
 (* one step from a node and from its rendering *)
 Lemma jstep_sim q j : simple_comp c = true -> simge (S m) q j ->
@@ -286,12 +300,14 @@ Proof.
     + cbn [wf_node] in Hw. destruct Hw as [Hlen Hms].
       unfold jstep, ref_step. destruct (c_sep c =? SEP_CHILD)%N.
       * cbn [members_of]. cbv zeta. rewrite rns_map.
-        apply step_rep; [exact Hk'|rewrite <- wlength_list; exact Hlen|apply wf_nodes_list; exact Hms].
+        apply (step_rep_g VList (simge m) c contJ contV Hcont); [rewrite <- wlength_list; exact Hlen|].
+        intros w Hw. apply simge_node; [exact Hk'|]. eapply wf_nodes_list; [exact Hms|exact Hw].
       * destruct (c_sep c =? SEP_ATTRIB)%N; [reflexivity|discriminate (Hsep eq_refl)].
     + cbn [wf_node] in Hw. destruct Hw as [Hlen Hms].
       unfold jstep, ref_step. destruct (c_sep c =? SEP_CHILD)%N.
       * cbn [members_of]. cbv zeta. rewrite rns_map.
-        apply step_rep; [exact Hk'|rewrite <- wlength_list; exact Hlen|apply wf_nodes_list; exact Hms].
+        apply (step_rep_g VList (simge m) c contJ contV Hcont); [rewrite <- wlength_list; exact Hlen|].
+        intros w Hw. apply simge_node; [exact Hk'|]. eapply wf_nodes_list; [exact Hms|exact Hw].
       * destruct (c_sep c =? SEP_ATTRIB)%N; [|discriminate (Hsep eq_refl)].
         apply (step_list QV (fun x => JVal (rv k false x)) [f]).
         -- intros w. apply jlab_rv.
